@@ -160,3 +160,29 @@ PROPS["C18"] = dict(
     level_text="Generated search with field-by-field obligations checked on an independently parsed event; id uniqueness over all events of a run (16k quick, 1.9M thorough). Not a proof.",
     level_note="Trusted: harness/common/minijson.h; obligations in harness/rc_sentry.cpp.",
 )
+
+PROPS["C12"] = dict(
+    harness="rc_pattern",
+    builds=[dict(harness="rc_pattern")],
+    engine="rc",
+    level="exploration",
+    quick=dict(cases=15000, shards=2, max_size=100, timeout=900),
+    thorough=dict(cases=200000, shards=16, max_size=200, timeout=3000),
+    rule="case = pattern generated from the documented grammar (literal pieces over all Unicode classes, %%, lone %, unterminated %{, every "
+    "documented placeholder incl. shortfile BASE / time FORMAT / time process|boot, custom attributes name / name? / name?N / name?N,M / name?,M, "
+    "unknown placeholders, %{if-TYPE}..%{endif}, format specs [fill][<^>]width[!] with widths around the content length, a few malformed specs) "
+    "x message (5 types, text over all classes incl. U+200B, category/file/function from printable-ASCII menus, line) x attribute map "
+    "(present/absent per referenced name; string/int/bool). Non-trivial = >= 3 tokens incl. a spec'd one AND (a conditional or a missing "
+    "optional attribute) AND a non-ASCII-printable value class used AND graded exact or bounded; distinct = canonical JSON.",
+    assumptions=[
+        "fill is one UTF-16 code unit; width <= 40 here (C14 owns large widths)",
+        "a pattern without any token (empty, or only conditional markers) may yield the message or the empty string",
+        "%{time} accepted with or without milliseconds; %{time process|boot} only checked to be <digits>.<3 digits>",
+        "%{func} value obtained from a separate %{func}-only formatter (composition is checked, the cleanup heuristics are not)",
+        "nested or unknown %{if-..} are skipped (counted), removal windows beyond the adjacent literal are checked with bounded-deletion obligations",
+    ],
+    floors={"grade_exact": 0.5, "missing_optional_attribute": 0.1, "has_conditional": 0.1, "has_spec": 0.3},
+    technique="property-based testing (rapidcheck): grammar-generated patterns x messages vs an independent reference formatter (differential), exact on the documented core, bounded-deletion obligations elsewhere",
+    level_text="Generated differential search against a reference implementation of the documented mini-language written from the docs; exact equality wherever the documentation defines the output. Not a proof.",
+    level_note="Trusted: harness/common/refpattern.h (its reading of docs/api/formatters.md is stated in DESIGN.md section 3, C12).",
+)
